@@ -99,8 +99,8 @@ def shards(tier):
 
 def run_shard(spec, ctx):
     if isinstance(spec, tuple) and spec[0] == "fuzz":
-        return M.run_fuzz_shard("C02", spec[1], ctx, 12000)
-    run_given(M.mutated_streams(), body, ctx, ctx.pick(1900, 1700))
+        return M.run_fuzz_shard("C02", spec[1], ctx, 40000)
+    run_given(M.mutated_streams(), body, ctx, ctx.pick(1900, 6000))
     ctx.col.extra["distinct_error_classes"] = len([l for l in ctx.col.labels if l.startswith("err:")])
 
 
